@@ -2,6 +2,7 @@
   CmdSolver.lean — driver command for the time-reversed solver model.
 -/
 import GraphiqModel.Model.Solver
+import GraphiqModel.Model.Check
 import Driver.Proto
 import Driver.CmdStab
 namespace Graphiq.CmdSolver
@@ -16,13 +17,14 @@ def tokC : COp → String
   | .mcr c t r => s!"MCR:{regName c}:{regName t}:c{r}"
   | _ => "?"
 
-/-- solver.trs n= x= z= r=  (target stabilizer tableau) -/
+/-- solver.trs n= x= z= r=  (target stabilizer tableau); `zero` = the final working tableau generates the group of |0…0⟩, the hypothesis `hfinal` of
+    `C02.solve_sound`, evaluated on every input -/
 def trs (a : Args) : String :=
   match solve (CmdStab.stabOf a) with
   | .error e => s!"err {e}"
   | .ok s =>
     let toks := s.cops.map tokC
-    s!"ok ne={s.ne} np={s.np} ops={if toks.isEmpty then "-" else String.intercalate "," toks}"
+    s!"ok ne={s.ne} np={s.np} zero={b01 (s.t.sameGroup (STab.zero (s.np + s.ne)))} ops={if toks.isEmpty then "-" else String.intercalate "," toks}"
 
 def dispatch (cmd : String) (a : Args) : Option String :=
   match cmd with
